@@ -108,6 +108,25 @@ PROPS = {
         level_text="Size invariant, atomic refusal and equality with the unlimited run are evaluated for every parse and setter call generated.",
         level_note="limits only up to a few hundred bytes are exercised (behaviour near 2^32 is not)",
     ),
+    "C11": dict(
+        legs=[dict(monitor="c11", config="asan", cases=K(100000, 10000000))],
+        rule="exhaustive: 7 sets x 256 byte values through ada::unicode::percent_encode (all overloads, percent_encode_index, the bitmaps read directly), "
+             "each byte alone and at offsets 0..33 of a 34-byte carrier and at 63/64/65/127/129-byte boundaries; every byte that can occur in valid UTF-8 at "
+             "every offset through 16 URL templates (path special/non-special/file, query, special-query, fragment, opaque path, opaque host, username, "
+             "password, with and without a fast-path-defeating tab) and 12 setters for both URL types, compared with the reference parser/setters; bytes "
+             ">= 0x80 raw through 7 byte-accepting setters; every byte through the form-urlencoded serialiser and parser; random byte strings for "
+             "percent_decode, form_urlencoded_decode and the decode o encode laws. Non-trivial/distinct: (channel, set, byte) triples whose byte was seen "
+             "literally or escaped in the produced component.",
+        floors=dict(any={"direct_set_byte_pairs": 1792, "triples_observed": 6000, "parse_channel_cases": 10000, "setter_channel_cases": 10000, "raw_setter_cases": 1000, "form_cases": 1000}),
+        assumptions=["the seven sets are those of url.spec.whatwg.org as transcribed in harness/ref_sets.h by set algebra on the prose definitions",
+                     "URL-level channels trust ref_url.h for which bytes reach the encoder (delimiters, stripped tabs/newlines, backslash conversion)",
+                     "decode o encode is the identity only for sets containing '%' (form-urlencoded); for the others the law checked is decode(encode(s)) == decode(s)"],
+        technique="exhaustive runtime sweep of (set, byte, channel, offset) against a set-algebra reference + round-trip laws on random byte strings, under ASan/UBSan",
+        level_text="The finite (set, byte) space is enumerated completely through every public channel that applies each set; held means every one of the "
+                   "produced components equals the reference encoding.",
+        level_note="exhaustive over (set, byte) and offsets 0..33, not over all strings; trusted: ref_sets.h, ref_url.h",
+        exhaustive=True,
+    ),
     "C16": dict(
         legs=[dict(monitor="idna", config="asan", name="idna:c16/asan", args=["--mode", "c16"], cases=K(300000, 30000000))],
         rule="pairs of domain spellings related by a generator-known equivalence (NFD form, reordering of adjacent marks with distinct non-zero ccc, ASCII case, "
